@@ -27,8 +27,10 @@ def cases(rng, tier):
     for b in fixture_blocks():
         for d in (2.5, 1.0, 100.0, 0.0):
             yield ("stats landing %s %s %s" % (hexs(b), fhex(d), fhex(0.05)), "fixture")
-    for i in range(n):
-        tr, scale, jit = S.landing_traj(rng)
+    nlong = 12 if tier == "thorough" else 3
+    for i in range(n + nlong):
+        long = i >= n
+        tr, scale, jit = S.landing_traj(rng, long=long)
         b = hexs(G.encode(tr))
         zs = [tr["start"][2]]
         for s in tr["segs"]:
@@ -45,7 +47,7 @@ def cases(rng, tier):
             else:
                 d = rng.choice([0.0, -1.0, 1e-10, 1e-5, float("nan"), float("inf"), 1e-38])
             thr = rng.choice([0.0, 0.05, f32(jit * scale), f32(jit * scale * 0.5), f32(jit * scale + 1), 1e6])
-            yield ("stats landing %s %s %s" % (b, fhex(d), fhex(thr)), "gen")
+            yield ("stats landing %s %s %s" % (b, fhex(d), fhex(thr)), "long-block" if long else "gen")
 
 
 def _inside(tok, e, bts=None):
